@@ -6,6 +6,7 @@
 int drv_sched(int argc, char **argv);
 int drv_sweep(int argc, char **argv);
 int drv_cells(int argc, char **argv);
+int drv_threads(int argc, char **argv);
 int drv_sgl(int argc, char **argv);
 int drv_kinds(int argc, char **argv);
 int drv_invalid(int argc, char **argv);
@@ -37,6 +38,8 @@ main(int argc, char **argv)
                 return drv_invalid(argc - 2, argv + 2);
         if (!strcmp(argv[1], "sgl"))
                 return drv_sgl(argc - 2, argv + 2);
+        if (!strcmp(argv[1], "threads"))
+                return drv_threads(argc - 2, argv + 2);
         if (!strcmp(argv[1], "cells"))
                 return drv_cells(argc - 2, argv + 2);
         if (!strcmp(argv[1], "sweep"))
